@@ -985,7 +985,7 @@ func (r *Run) mixedTimeoutStep() {
 }
 
 // pauseRaceStep: a consumer waits (RDY 1, nothing queued); its channel is paused and a message is published at the same
-// moment, forty times over.  Whichever the consumer's pump sees first, afterwards /stats says about the consumer what the
+// moment, twenty times over.  Whichever the consumer's pump sees first, afterwards /stats says about the consumer what the
 // consumer did (C13: the snapshot that follows, and the ledger's bounds) and nothing is lost (C01).
 func (r *Run) pauseRaceStep() {
 	t := r.sc.Topics[0]
@@ -1003,7 +1003,7 @@ func (r *Run) pauseRaceStep() {
 		return
 	}
 	cn.cmd("RDY", "", "1")
-	for round := 0; round < 40; round++ {
+	for round := 0; round < 20; round++ {
 		key := fmt.Sprintf("p93-%05d", round)
 		body := []byte(key + "|race")
 		rec := r.record(key, t, body, 0, "HTTP")
@@ -1228,6 +1228,25 @@ func (r *Run) bigFrameStep() {
 		r.inconclusive("big frame barrier: %v", err)
 		return
 	}
+	// whatever the topic still had in its queue when the channel was created comes first: answered and out of the way
+	for quiet := 0; quiet < 6; {
+		if f, ok := c.cn.next(50 * time.Millisecond); ok && f.Type == 2 {
+			c.cn.cmd("FIN", f.ID, "")
+			quiet = 0
+			continue
+		}
+		quiet++
+		if st, _, err := r.nd.stats(""); err == nil {
+			for _, ts := range st.Topics {
+				if ts.Name == t && ts.Depth > 0 {
+					quiet = 0
+				}
+			}
+		}
+		if c.cn.isClosed() {
+			return
+		}
+	}
 	for i := 0; i < 3; i++ {
 		size := []int{40000, 70000, 33000}[i]
 		if size > r.maxMsgSize()-100 {
@@ -1254,6 +1273,9 @@ func (r *Run) bigFrameStep() {
 			f, ok := c.cn.next(50 * time.Millisecond)
 			if ok && f.Type == 2 && keyOf(f.Body) == key {
 				got = &f
+			} else if ok && f.Type == 2 {
+				// something the topic still had in its queue when this channel was created: answered, so that RDY 1 is free again
+				c.cn.cmd("FIN", f.ID, "")
 			}
 			if c.cn.isClosed() {
 				break
